@@ -5,7 +5,8 @@ pid = sys.argv[1]
 rnd = sys.argv[2] if len(sys.argv) > 2 else ''
 root = f'/tmp/seed{rnd}-{pid}'
 p = [json.loads(l) for l in open('/verif/properties.jsonl') if json.loads(l)['id'] == pid][0]
-extra = "" if not rnd else " In this round prefer the kinds of change that are hardest to notice: behaviour that depends on the HISTORY of earlier calls or on object state (caches, memoised helpers, attributes changed after construction, module globals, lazily computed fields), on a CONFIGURATION (32-bit precision via prysm.conf.config.precision = 32, a backend shim, a non-default keyword argument, the Wavefront/Interferogram method form versus the plain function form), on the INTERACTION of two public routines, or on a narrow numeric regime (large orders, extreme aspect ratios, values near a branch point). Avoid a plain wrong-constant edit that any single call with generic inputs would expose."
+extra3 = " In this round prefer changes that a careful reviewer and a thorough randomised checker could both overlook: a defect that needs TWO conditions at once (e.g. a particular argument form AND a particular size class; a non-default option AND a second call), that lives on a rarely used public form of the API (the Wavefront / Interferogram / RichData method versus the plain function, keyword versus positional arguments, tuple versus scalar versus array-valued parameters, out-of-place versus in-place variants, a documented optional argument nobody passes), that corrupts something only for a later DIFFERENT public routine (shared helpers, shared caches, shared module state, an argument that is modified for the caller), that depends on dtype, memory layout or container type of an argument, or that only appears at the edge of the documented range (sizes 1, 2 and 3, prime sizes, very large orders, zero or negative-but-legal parameters, angles at multiples of 90 or 180 degrees, values exactly on a boundary). Avoid anything that a single call with generic random inputs would expose."
+extra = "" if not rnd else extra3 if rnd == "3" else " In this round prefer the kinds of change that are hardest to notice: behaviour that depends on the HISTORY of earlier calls or on object state (caches, memoised helpers, attributes changed after construction, module globals, lazily computed fields), on a CONFIGURATION (32-bit precision via prysm.conf.config.precision = 32, a backend shim, a non-default keyword argument, the Wavefront/Interferogram method form versus the plain function form), on the INTERACTION of two public routines, or on a narrow numeric regime (large orders, extreme aspect ratios, values near a branch point). Avoid a plain wrong-constant edit that any single call with generic inputs would expose."
 print(f"""You are a careful software engineer helping to evaluate a verification effort for the open-source Python numerical optics library prysm (brandondube/prysm). You are given ONE semantic property that the library is supposed to satisfy, and your own scratch git worktree of the library at {root}/wt. Work ONLY inside {root}/ — do not read or write anything under /verif, /repo or other /tmp directories (independence from the verification machinery is the whole point).
 
 THE PROPERTY ({pid}): {p['title']}
